@@ -53,7 +53,10 @@ def gen_case(rng, exact):
             alpha = [[a, rng.choice([0.25, 0.5, 1.0, 0.0, 0.125]) if exact else rng.choice([rng.random(), 0.0])] for a in keys]
         else:
             alpha = [[a, rng.choice([0.25, -0.5, 1.0, 0.0, -0.125]) if exact else rng.choice([rng.uniform(-1, 1), 0.0])] for a in keys]
-        rounds.append({'t_close': d + 75600, 't_open': d + DAY * (3 if (d // DAY + 3) % 7 == 4 else 1) + 52200,
+        no_alpha = rng.random() < 0.08
+        if no_alpha:
+            alpha = []              # the construction model is given no alpha model at all: every weight is zero
+        rounds.append({'no_alpha': no_alpha, 'risk_identity': rng.random() < 0.15, 't_close': d + 75600, 't_open': d + DAY * (3 if (d // DAY + 3) % 7 == 4 else 1) + 52200,
                        'close': close_p, 'open': open_p, 'universe': universe, 'alpha': alpha})
     if rounds and rng.random() < 0.5:
         # the same universe object, sizer and construction model serve all rebalances
@@ -65,6 +68,7 @@ def gen_case(rng, exact):
             c['single_signal'] = sgn
             for r in rounds:
                 r['alpha'] = [[a, sgn] for a in r['universe']]
+                r['no_alpha'] = False
         c['stream'] += ':persistent'
     c['rounds'] = rounds
     return c
